@@ -339,6 +339,11 @@ func makeCase(id string, in toolInput, d delivery, f simos.Faults, mode int, mse
 		}
 		c.Files["out/parser.go"] = staleOutput
 	}
+	if n := len(in.Grammar); n > 64<<10 {
+		// pigeon's own front-end needs seconds per megabyte (natively about six
+		// for a megabyte of comments); a big input gets a limit that grows with it
+		c.WallS = (5 + n/(8<<10)) * repeat
+	}
 	return c
 }
 
@@ -452,6 +457,11 @@ func genLRRecoveryN(r *rng, i int) toolInput {
 		// blocks at every expression index: generated identifiers built from
 		// name + index meet (onA + 11 = onA1 + 1)
 		"A <- " + strings.Repeat("&{ return true, nil } ", 14) + "'a' { return nil, nil }\nA1 <- 'b' { return nil, nil } / &{ return true, nil } 'c'\nA11 <- 'c' { return nil, nil }\nA2 <- #{ return nil } !{ return false, nil } 'd' { return nil, nil }\nA12 <- 'e' { return nil, nil }\n",
+		// a recovery expression that is nothing but a reference to a small rule
+		// which the same rule uses once more (food for the optimizer's book-keeping
+		// of who uses whom)
+		"Line <- k:Key WS ( '=' / %{noeq} ) WS Value? !. //{noeq} WS\nKey <- [a-z]+\nValue <- [0-9]+\nWS <- [ \\t]*\n",
+		"A <- L 'x' ( 'y' / %{e} ) //{e} L\nL <- 'l'\nB <- A 'b'\n",
 	}
 	if i < 0 || i >= len(shapes) {
 		i = r.intn(len(shapes))
@@ -460,10 +470,15 @@ func genLRRecoveryN(r *rng, i int) toolInput {
 	if r.chance(1, 2) || strings.Contains(g, "{ return") {
 		g = "{\npackage gen\n}\n" + g
 	}
-	if r.chance(1, 3) && !strings.Contains(g, "A11") {
+	if r.chance(1, 3) && !strings.Contains(g, "A11") && strings.Contains(g, "E <-") {
 		g = "Top <- 'k' E?\n" + g
 	}
 	name, rules := "lrrec", []string{"E", "T"}
+	if strings.Contains(g, "Line <-") {
+		name, rules = "recovref", []string{"Line", "Key"}
+	} else if strings.HasPrefix(strings.TrimPrefix(g, "{\npackage gen\n}\n"), "A <- L") {
+		name, rules = "recovref", []string{"A", "B"}
+	}
 	if strings.Contains(g, "A11") {
 		name, rules = "digitnames", []string{"A", "A1"}
 	}
